@@ -103,7 +103,7 @@ fn main() {
                 writeln!(out, "{} => {}", input, obs).unwrap();
             }
         }
-        "c10child" => c10::child(&args[2], &args[3]),
+        "c10child" => c10::child(&args[2], &args[3], args.get(4).map(|s| s.as_str()).unwrap_or("E:")),
         "c19w" => c19::worker(&args[2..], &mut out),
         _ => {
             eprintln!("unknown command");
